@@ -1,4 +1,4 @@
-import MorfuseModel.Emit.Sim
+import MorfuseModel.Emit.Fuse
 /-!
 # Simulation between the two passes: the emitter, for the class `Node.plain`
 -/
@@ -14,9 +14,7 @@ macro_rules | `(tactic| pl_prim) => `(tactic| with_reducible refine wp_mono ((mn
 
 mutual
 /-- the trees the simulation is proved for: no `try`, no `switch` (their counting sub-emitters), no unary minus (its
-folding reads code bytes back), and no read of a plain variable of a listener (`rd = 0`: the only place where the two
-passes can take different branches, the `LOAD_x_VAR → LOAD_STORE_x_VAR` fusion); assignments to such variables, built-in
-getters, commands, all other expressions and all loops are in the class -/
+folding reads code bytes back); listener bytes of fields as the parser produces them (`≤ 6`) -/
 def Node.plain : Node → Bool
   | .next n => n.plain
   | .list xs => xs.plain
@@ -28,7 +26,7 @@ def Node.plain : Node → Bool
   | .and_ a b | .or_ a b => a.plain && b.plain
   | .mcmd _ l _ ps | .mcmdx _ l _ ps => l.plain && ps.plain
   | .cmd _ _ ps | .cmdx _ _ ps => ps.plain
-  | .field _ _ rd _ l => l.plain && (match l with | .listener _ => decide (rd = 1 ∨ rd = 2) | _ => true)
+  | .field _ _ _ _ l => l.plain && (match l with | .listener b => decide (b ≤ 6) | _ => true)
   | .vec a b c => a.plain && b.plain && c.plain
   | .f1 op x => decide (op ≠ OP_UN_MINUS) && x.plain
   | .f2 _ a b => a.plain && b.plain
@@ -159,17 +157,6 @@ theorem J2_addLabel {L : Nat} {c p : St} (h : Rel L c p) (i : Nat) (pr cl1 cl2 :
       exact ⟨trivial, hc _ ⟨hb.cc, hb.pc, hb.w.congr rfl rfl rfl rfl, hb.gross, hb.pos, hb.len, hb.nb, hb.nc, hb.cb, hb.cct, hb.sd⟩⟩
 
 /-! ## the emitter -/
-
-/-- reading a plain variable of a listener: the only place where the two passes can take different branches -/
-def gameVarBlock (s : St) (b index prevIndex ev : Nat) : R St := do
-  let p ← s.prevOp
-  if p.op ≠ OP_LOAD_GAME_VAR + b ∨ prevIndex ≠ index then
-    let s ← s.emitOp (OP_STORE_GAME_VAR + b)
-    s.write (le 4 index ++ le 4 ev)
-  else
-    let s ← s.absorb
-    let s ← s.emitOp (OP_LOAD_STORE_GAME_VAR + b)
-    .ok (s.moveFwd 8)
 
 /-- the statement at one node: for the three functions, under membership in the class -/
 structure MSP (n : Node) : Prop where
